@@ -217,6 +217,9 @@ pub fn finish(prop: &str, tier: Tier, mut frag: Frag, wall: f64, frag_path: Opti
     if let Some(p) = frag_path {
         if let Some(dir) = std::path::Path::new(p).parent() {
             let _ = std::fs::create_dir_all(dir);
+            if !frag.e2_traces.is_empty() {
+                let _ = std::fs::write(dir.join("traces.json"), serde_json::to_string(&frag.e2_traces).unwrap());
+            }
         }
         std::fs::write(p, serde_json::to_string_pretty(&ev).unwrap()).expect("write fragment");
     }
